@@ -92,8 +92,9 @@ theorem chunks_bounds (n : Nat) (h : 0 < n) (d : List Nat) :
       simp only [List.length_take]; omega
     · exact ih c hc
 
-theorem code_framing (r12 : Bool) (c : Nat) (rest : List Nat) (hc : c < 65536)
-    (h12 : r12 = true → c < 255 ∨ 1000 ≤ c) :
+/-- every group code < 65536 is framed and read back, for both group-code widths (R12: since the fix of
+    F7 the marker 0xFF + 2-byte code is written for every code >= 255) -/
+theorem code_framing_all (r12 : Bool) (c : Nat) (rest : List Nat) (hc : c < 65536) :
     ∃ bs, encCode r12 c = .ok bs ∧ decCode r12 (bs ++ rest) = .ok (c, rest) := by
   cases r12 with
   | false =>
@@ -101,22 +102,25 @@ theorem code_framing (r12 : Bool) (c : Nat) (rest : List Nat) (hc : c < 65536)
     simp only [leBytes, List.cons_append, List.nil_append, decCode]
     simp; omega
   | true =>
-    rcases h12 rfl with h | h
-    · refine ⟨[c], ?_, ?_⟩
-      · have : ¬ c ≥ 1000 := by omega
-        have : c < 256 := by omega
-        simp [encCode, *]
-      · have : c ≠ 255 := by omega
-        simp [decCode, this]
+    by_cases h : c ≥ 255
     · refine ⟨255 :: leBytes 2 c, by simp [encCode, h, hc], ?_⟩
       simp only [leBytes, List.cons_append, List.nil_append, decCode]
       simp; omega
+    · refine ⟨[c], by simp [encCode, h], ?_⟩
+      have : c ≠ 255 := by omega
+      simp [decCode, this]
 
-/-- F7 (known finding): under R12 the writer emits group code 255 as the single byte 0xFF, which
-    the loader takes for the extended-code marker -/
+theorem code_framing (r12 : Bool) (c : Nat) (rest : List Nat) (hc : c < 65536)
+    (_h12 : r12 = true → c < 255 ∨ 1000 ≤ c) :
+    ∃ bs, encCode r12 c = .ok bs ∧ decCode r12 (bs ++ rest) = .ok (c, rest) :=
+  code_framing_all r12 c rest hc
+
+/-- F7 (fixed): before the fix the R12 writer emitted group code 255 as the single byte 0xFF, which the
+    loader takes for the extended-code marker (and raised OverflowError for codes 256..999) -/
 theorem code_255_r12_counterexample :
-    encCode true 255 = .ok [255] ∧ decCode true ([255] ++ [1, 2, 3]) = .ok (2 * 256 + 1, [3]) := by
-  constructor <;> rfl
+    encCodeLegacy true 255 = .ok [255] ∧ decCode true ([255] ++ [1, 2, 3]) = .ok (2 * 256 + 1, [3]) ∧
+    encCodeLegacy true 256 = .error .overflowError := by
+  refine ⟨rfl, rfl, rfl⟩
 
 /-! ## decimal and hex text -/
 
@@ -449,6 +453,144 @@ theorem xtags_roundtrip (ts : List Tag) (hn : NoRef ts) (x : XT) (h : setup ts =
       rw [h3, List.append_assoc, List.append_assoc, h2, h1, hbase]
     · cases h
 
+/-! ## `new_app_data`: the added group appears right after the chosen subclass -/
+
+/-- the base class `collectBase` returns only holds placeholders of groups it collected -/
+private theorem collectBase_refs (ts base : List Tag) (apps : List (List Tag)) (cur : Option (Tag × List Tag))
+    (hn : NoRef ts)
+    (hinv : match cur with
+      | none => RefsLt base apps.length
+      | some _ => RefsLt base (apps.length + 1))
+    (b : List Tag) (a : List (List Tag)) (rest : List Tag)
+    (h : collectBase ts base apps cur = some (b, a, rest)) : RefsLt b a.length := by
+  induction ts generalizing base apps cur with
+  | nil =>
+    cases cur with
+    | none => simp only [collectBase] at h; cases h; exact hinv
+    | some p => simp [collectBase] at h
+  | cons t r ih =>
+    have hnr : NoRef r := fun x hx => hn x (by simp [hx])
+    obtain ⟨st, hst⟩ := hn t (by simp)
+    cases cur with
+    | some p =>
+      obtain ⟨start, grp⟩ := p
+      simp only [collectBase] at h
+      split at h
+      · exact ih base (apps ++ [grp ++ [t]]) none hnr (by simpa using hinv) h
+      · exact ih base apps (some (start, grp ++ [t])) hnr hinv h
+    | none =>
+      simp only [collectBase] at h
+      split at h
+      · refine ih (base ++ [⟨t.code, .ref apps.length⟩]) apps (some (t, [t])) hnr ?_ h
+        intro x hx k hk
+        simp only [List.mem_append, List.mem_singleton] at hx
+        rcases hx with hx | hx
+        · have := hinv x hx k hk; omega
+        · subst hx; simp at hk; omega
+      · split at h
+        · cases h; exact hinv
+        · refine ih (base ++ [t]) apps none hnr ?_ h
+          intro x hx k hk
+          simp only [List.mem_append, List.mem_singleton] at hx
+          rcases hx with hx | hx
+          · exact hinv x hx k hk
+          · subst hx; rw [hst] at hk; cases hk
+
+private theorem refsLt_of_noRef (l : List Tag) (n : Nat) (h : NoRef l) : RefsLt l n := by
+  intro t ht k hk
+  obtain ⟨s, hs⟩ := h t ht
+  rw [hs] at hk; cases hk
+
+private theorem expand_snoc_ref (apps : List (List Tag)) (g sc : List Tag) (h : RefsLt sc apps.length) :
+    expand (apps ++ [g]) (sc ++ [⟨102, .ref apps.length⟩]) = expand apps sc ++ g := by
+  rw [expand_append, expand_mono apps [g] sc h]
+  simp [expand, List.getD]
+
+private theorem map_expand_unchanged (apps : List (List Tag)) (g : List Tag) (l : List (List Tag))
+    (hl : ∀ sc ∈ l, RefsLt sc apps.length) (k sub : Nat) (hk : sub < k) :
+    ((l.zipIdx k).map fun p => expand (apps ++ [g])
+        (if p.2 = sub then p.1 ++ [⟨102, .ref apps.length⟩] else p.1)) = l.map (expand apps) := by
+  induction l generalizing k with
+  | nil => rfl
+  | cons sc r ih =>
+    have hne : k ≠ sub := by omega
+    simp only [List.zipIdx_cons, List.map_cons, hne, ↓reduceIte, expand_mono apps [g] sc (hl sc (by simp)),
+      ih (fun x hx => hl x (by simp [hx])) (k + 1) (by omega)]
+
+private theorem map_expand_insert (apps : List (List Tag)) (g : List Tag) (l : List (List Tag))
+    (hl : ∀ sc ∈ l, RefsLt sc apps.length) (k sub : Nat) (hsub : sub < l.length) :
+    (((l.zipIdx k).map fun p => expand (apps ++ [g])
+        (if p.2 = sub + k then p.1 ++ [⟨102, .ref apps.length⟩] else p.1))).flatten =
+      ((l.take (sub + 1)).map (expand apps)).flatten ++ g ++ ((l.drop (sub + 1)).map (expand apps)).flatten := by
+  induction l generalizing k sub with
+  | nil => simp at hsub
+  | cons sc r ih =>
+    have hsc := hl sc (by simp)
+    have hr : ∀ x ∈ r, RefsLt x apps.length := fun x hx => hl x (by simp [hx])
+    cases sub with
+    | zero =>
+      have := map_expand_unchanged apps g r hr (k + 1) k (by omega)
+      simp only [List.zipIdx_cons, List.map_cons, Nat.zero_add, ↓reduceIte, expand_snoc_ref apps g sc hsc,
+        this, List.flatten_cons, List.take_succ_cons, List.take_zero, List.map_nil, List.flatten_nil,
+        List.append_nil, List.drop_succ_cons, List.drop_zero, List.append_assoc]
+    | succ s =>
+      have hne : k ≠ s + 1 + k := by omega
+      have hih := ih hr (k + 1) s (by simp at hsub; omega)
+      have e : s + (k + 1) = s + 1 + k := by omega
+      rw [e] at hih
+      simp only [List.zipIdx_cons, List.map_cons, hne, ↓reduceIte, expand_mono apps [g] sc hsc,
+        List.flatten_cons, hih, List.take_succ_cons, List.drop_succ_cons, List.append_assoc]
+
+/-- `ExtendedTags.new_app_data(appid, tags, subclass_name)` on a loaded entity: iterating afterwards yields
+    the old tags with the new group right after the tags of the chosen subclass (0 = base class) — the
+    placeholder (102, index) is expanded in whichever subclass it was appended to -/
+theorem new_app_data_iter (ts : List Tag) (hn : NoRef ts) (x : XT) (h : setup ts = .ok x)
+    (sub : Nat) (grp : List Tag) (hsub : sub < x.subclasses.length) :
+    iter (newAppData x sub grp) =
+      ((x.subclasses.take (sub + 1)).map (expand x.appdata)).flatten ++ grp ++
+        ((x.subclasses.drop (sub + 1)).map (expand x.appdata)).flatten ++ x.embedded.flatten ++ x.xdata.flatten := by
+  have hrefs : ∀ sc ∈ x.subclasses, RefsLt sc x.appdata.length := by
+    unfold setup at h
+    split at h
+    · cases h
+    · rename_i base apps r1 hb
+      simp only at h
+      split at h
+      · cases h
+        have hbase := collectBase_refs ts [] [] none hn (by intro t ht; simp at ht) base apps r1 hb
+        have hspec := collectBase_spec ts [] [] none hn (by intro t ht; simp at ht) base apps r1 hb
+        simp only [expand, List.nil_append] at hspec
+        have hr1 : NoRef r1 := by
+          have : NoRef (expand apps base ++ r1) := by rw [hspec]; exact hn
+          exact noRef_of_append_right this
+        have h1 := collectGroups_flatten (fun t => t.code == 100) isEndOfClass r1
+        rw [← h1] at hr1
+        have hs := noRef_of_append_left hr1
+        intro sc hsc
+        simp only [List.mem_cons] at hsc
+        rcases hsc with hsc | hsc
+        · subst hsc; exact hbase
+        · apply refsLt_of_noRef
+          intro t ht
+          exact hs t (List.mem_flatten.mpr ⟨sc, hsc, ht⟩)
+      · cases h
+  have := map_expand_insert x.appdata grp x.subclasses hrefs 0 sub hsub
+  simp only [Nat.add_zero] at this
+  simp only [iter, newAppData, List.map_map]
+  have e : (List.map (expand (x.appdata ++ [grp]) ∘ fun p : List Tag × Nat =>
+      if p.2 = sub then p.1 ++ [⟨102, V.ref x.appdata.length⟩] else p.1) x.subclasses.zipIdx) =
+      (x.subclasses.zipIdx.map fun p => expand (x.appdata ++ [grp])
+        (if p.2 = sub then p.1 ++ [⟨102, .ref x.appdata.length⟩] else p.1)) := rfl
+  rw [e, this]
+
+-- non-vacuity: group added to the named subclass (index 1) of an entity with base class, subclass and XDATA
+#guard (match setup [⟨0, .str [76]⟩, ⟨5, .str [49]⟩, ⟨102, .str [123, 65]⟩, ⟨330, .str [50]⟩, ⟨102, .str [125]⟩,
+    ⟨100, .str [65]⟩, ⟨10, .str [49]⟩, ⟨100, .str [66]⟩, ⟨1001, .str [88]⟩] with
+  | .ok x => iter (newAppData x 1 [⟨102, .str [123, 78]⟩, ⟨102, .str [125]⟩]) ==
+      [⟨0, .str [76]⟩, ⟨5, .str [49]⟩, ⟨102, .str [123, 65]⟩, ⟨330, .str [50]⟩, ⟨102, .str [125]⟩,
+       ⟨100, .str [65]⟩, ⟨10, .str [49]⟩, ⟨102, .str [123, 78]⟩, ⟨102, .str [125]⟩, ⟨100, .str [66]⟩, ⟨1001, .str [88]⟩]
+  | _ => false)
+
 /-! ## binary tags -/
 
 theorem cls_agree (c : Nat) : writerCls c = loaderCls c := by
@@ -489,11 +631,12 @@ private theorem drop_append_len (a b : List Nat) : (a ++ b).drop a.length = b :=
 /-- `binary_tags_loader` reads back exactly the tag `BinaryTagWriter.write_tag2` wrote, for every
     non-binary group code the format can frame and every value within the width of its class
     (floats bit-exact, strings byte-exact up to the text codec which is C09's subject) -/
-theorem bin_tag_roundtrip (r12 : Bool) (t : BTag) (rest : List Nat)
-    (hc : t.code < 65536) (h12 : r12 = true → t.code < 255 ∨ 1000 ≤ t.code) (hv : ValWF t) :
+theorem bin_tag_roundtrip_all (r12 : Bool) (t : BTag) (rest : List Nat)
+    (hc : t.code < 65536) (hv : ValWF t) :
     ∃ bs, encTag r12 t = .ok bs ∧ decTag r12 (bs ++ rest) = .ok (t, rest) := by
+  have h12 : r12 = true → t.code < 255 ∨ 1000 ≤ t.code ∨ True := fun _ => Or.inr (Or.inr trivial)
   obtain ⟨code, val⟩ := t
-  simp only at hc h12
+  simp only at hc
   unfold ValWF at hv
   simp only at hv
   have hcls := cls_agree code
@@ -505,7 +648,7 @@ theorem bin_tag_roundtrip (r12 : Bool) (t : BTag) (rest : List Nat)
   all_goals simp only [hw] at hcls ⊢
   -- bytes
   · rename_i v
-    obtain ⟨cb, hcb, hdc⟩ := code_framing r12 code (([v.toNat] : List Nat) ++ rest) hc h12
+    obtain ⟨cb, hcb, hdc⟩ := code_framing_all r12 code (([v.toNat] : List Nat) ++ rest) hc
     refine ⟨cb ++ [v.toNat], by simp [hcb, encByte, hv, bind, Except.bind], ?_⟩
     simp only [List.append_assoc, hdc, bind, Except.bind, ← hcls]
     simp only [List.cons_append, List.nil_append]
@@ -513,7 +656,7 @@ theorem bin_tag_roundtrip (r12 : Bool) (t : BTag) (rest : List Nat)
   -- int16
   · rename_i v
     obtain ⟨b, hb, hbl, hbd⟩ := signed_roundtrip 2 (by decide) v hv
-    obtain ⟨cb, hcb, hdc⟩ := code_framing r12 code (b ++ rest) hc h12
+    obtain ⟨cb, hcb, hdc⟩ := code_framing_all r12 code (b ++ rest) hc
     refine ⟨cb ++ b, by simp [hcb, hb, bind, Except.bind], ?_⟩
     simp only [List.append_assoc, hdc, bind, Except.bind, ← hcls]
     have := takeN_append b rest; rw [hbl] at this
@@ -521,7 +664,7 @@ theorem bin_tag_roundtrip (r12 : Bool) (t : BTag) (rest : List Nat)
   -- int32
   · rename_i v
     obtain ⟨b, hb, hbl, hbd⟩ := signed_roundtrip 4 (by decide) v hv
-    obtain ⟨cb, hcb, hdc⟩ := code_framing r12 code (b ++ rest) hc h12
+    obtain ⟨cb, hcb, hdc⟩ := code_framing_all r12 code (b ++ rest) hc
     refine ⟨cb ++ b, by simp [hcb, hb, bind, Except.bind], ?_⟩
     simp only [List.append_assoc, hdc, bind, Except.bind, ← hcls]
     have := takeN_append b rest; rw [hbl] at this
@@ -529,14 +672,14 @@ theorem bin_tag_roundtrip (r12 : Bool) (t : BTag) (rest : List Nat)
   -- int64
   · rename_i v
     obtain ⟨b, hb, hbl, hbd⟩ := signed_roundtrip 8 (by decide) v hv
-    obtain ⟨cb, hcb, hdc⟩ := code_framing r12 code (b ++ rest) hc h12
+    obtain ⟨cb, hcb, hdc⟩ := code_framing_all r12 code (b ++ rest) hc
     refine ⟨cb ++ b, by simp [hcb, hb, bind, Except.bind], ?_⟩
     simp only [List.append_assoc, hdc, bind, Except.bind, ← hcls]
     have := takeN_append b rest; rw [hbl] at this
     simp only [this, hbd]
   -- double
   · rename_i bits
-    obtain ⟨cb, hcb, hdc⟩ := code_framing r12 code (leBytes 8 bits ++ rest) hc h12
+    obtain ⟨cb, hcb, hdc⟩ := code_framing_all r12 code (leBytes 8 bits ++ rest) hc
     refine ⟨cb ++ leBytes 8 bits, by simp [hcb, bind, Except.bind], ?_⟩
     simp only [List.append_assoc, hdc, bind, Except.bind, ← hcls]
     have := takeN_append (leBytes 8 bits) rest; rw [leBytes_length] at this
@@ -544,11 +687,16 @@ theorem bin_tag_roundtrip (r12 : Bool) (t : BTag) (rest : List Nat)
     rw [leVal_leBytes 8 bits (by simpa using hv)]
   -- str
   · rename_i s
-    obtain ⟨cb, hcb, hdc⟩ := code_framing r12 code (s ++ [0] ++ rest) hc h12
+    obtain ⟨cb, hcb, hdc⟩ := code_framing_all r12 code (s ++ [0] ++ rest) hc
     refine ⟨cb ++ s ++ [0], by simp [hcb, bind, Except.bind], ?_⟩
     have : cb ++ s ++ [0] ++ rest = cb ++ (s ++ [0] ++ rest) := by simp
     rw [this, hdc]
     simp only [bind, Except.bind, ← hcls, cstr_roundtrip s rest hv]
+
+theorem bin_tag_roundtrip (r12 : Bool) (t : BTag) (rest : List Nat)
+    (hc : t.code < 65536) (_h12 : r12 = true → t.code < 255 ∨ 1000 ≤ t.code) (hv : ValWF t) :
+    ∃ bs, encTag r12 t = .ok bs ∧ decTag r12 (bs ++ rest) = .ok (t, rest) :=
+  bin_tag_roundtrip_all r12 t rest hc hv
 
 /-- binary data: the loader returns one tag per chunk the writer produced -/
 theorem bin_chunk_roundtrip (r12 : Bool) (code : Nat) (ch rest : List Nat)
@@ -569,6 +717,35 @@ theorem bin_chunk_roundtrip (r12 : Bool) (code : Nat) (ch rest : List Nat)
   | true =>
     have h := h12 rfl
     simp only [h, ge_iff_le, and_self, ↓reduceIte, leBytes, List.cons_append, List.nil_append,
+      decCode, bind, Except.bind]
+    have : code / 256 % 256 * 256 + code % 256 = code := by omega
+    simp only [this, ← hl']
+    simp
+
+/-- binary data chunk as the fixed writer frames it (R12: marker for every code >= 255) -/
+theorem bin_chunk_roundtrip_all (r12 : Bool) (code : Nat) (ch rest : List Nat)
+    (hcls : writerCls code = .binary) (hc : code < 65536) (hl : ch.length < 256) :
+    decTag r12 ((if r12 ∧ code ≥ 255 then [255] else []) ++ leBytes 2 code ++ [ch.length] ++ ch ++ rest)
+      = .ok (⟨code, .bin ch⟩, rest) := by
+  have hl' := cls_agree code
+  rw [hcls] at hl'
+  have h255 : code ≥ 255 := by
+    unfold writerCls at hcls
+    simp only [isBinary, inR, Bool.or_eq_true, Bool.and_eq_true, decide_eq_true_eq, beq_iff_eq] at hcls
+    split at hcls
+    · omega
+    · repeat' split at hcls
+      all_goals cases hcls
+  unfold decTag
+  cases r12 with
+  | false =>
+    simp only [Bool.false_eq_true, false_and, ↓reduceIte, List.nil_append, leBytes, List.cons_append,
+      decCode, bind, Except.bind]
+    have : code / 256 % 256 * 256 + code % 256 = code := by omega
+    simp only [this, ← hl']
+    simp
+  | true =>
+    simp only [h255, ge_iff_le, and_self, ↓reduceIte, leBytes, List.cons_append, List.nil_append,
       decCode, bind, Except.bind]
     have : code / 256 % 256 * 256 + code % 256 = code := by omega
     simp only [this, ← hl']
@@ -615,6 +792,46 @@ theorem bin_file_roundtrip (r12 : Bool) (ts : List BTag) (h : ∀ t ∈ ts, TagO
       simp only [decAll, hne', Bool.false_eq_true, ↓reduceIte, hdt, bind, Except.bind]
       rw [hdr k (by simp at hf; omega)]
 
+
+/-- since the fix of F7 every group code < 65536 is framable in both widths -/
+def TagOK' (t : BTag) : Prop := t.code < 65536 ∧ ValWF t
+
+private theorem encTag_nonempty' (r12 : Bool) (t : BTag) (bs : List Nat) (h : TagOK' t)
+    (he : encTag r12 t = .ok bs) : bs ≠ [] := by
+  obtain ⟨bs', he', hd⟩ := bin_tag_roundtrip_all r12 t [] h.1 h.2
+  rw [he] at he'
+  cases he'
+  intro hnil
+  rw [hnil] at hd
+  simp [decTag, decCode, bind, Except.bind] at hd
+
+/-- a whole tag list written by the binary writer is read back tag for tag: every code < 65536, both
+    group-code widths, no restriction on R12 any more -/
+theorem bin_file_roundtrip_all (r12 : Bool) (ts : List BTag) (h : ∀ t ∈ ts, TagOK' t) :
+    ∃ bs, encAll r12 ts = .ok bs ∧ ∀ fuel, ts.length < fuel → decAll r12 fuel bs = .ok ts := by
+  induction ts with
+  | nil =>
+    refine ⟨[], rfl, ?_⟩
+    intro fuel hf
+    cases fuel with
+    | zero => omega
+    | succ k => simp [decAll]
+  | cons t r ih =>
+    have ht := h t (by simp)
+    obtain ⟨br, hbr, hdr⟩ := ih (fun x hx => h x (by simp [hx]))
+    obtain ⟨bt, hbt, hdt⟩ := bin_tag_roundtrip_all r12 t br ht.1 ht.2
+    refine ⟨bt ++ br, by simp [encAll, hbt, hbr, bind, Except.bind], ?_⟩
+    intro fuel hf
+    cases fuel with
+    | zero => omega
+    | succ k =>
+      have hne : bt ≠ [] := encTag_nonempty' r12 t bt ht hbt
+      have hne' : (bt ++ br).isEmpty = false := by
+        cases bt with
+        | nil => exact absurd rfl hne
+        | cons a b => rfl
+      simp only [decAll, hne', Bool.false_eq_true, ↓reduceIte, hdt, bind, Except.bind]
+      rw [hdr k (by simp at hf; omega)]
 
 /-! ## the hand-written class functions equal the sets and the probed behaviour of the source -/
 
